@@ -839,7 +839,12 @@ class HexaryTrie:
             )
             yield memory_trie
 
-        if self.root_hash != memory_trie.root_hash:
+        if self.is_pruning:
+            # The batch trie shares this trie's reference counts and has already
+            # persisted and counted its root node; persisting it again through
+            # _set_raw_node would count the new root a second time.
+            self.root_hash = memory_trie.root_hash
+        elif self.root_hash != memory_trie.root_hash:
             try:
                 raw_root_node = memory_trie.get_node(memory_trie.root_hash)
             except KeyError:
